@@ -161,6 +161,13 @@ func (fi *FuncInfo) mem() *memInfo {
 		for i, in := range b.Instrs {
 			mi.instrIdx[in] = i
 			keys := map[memKey]bool{}
+			if st, ok := in.(*ssa.Store); ok {
+				if al := rootAlloc(st.Addr); al != nil && al.Parent() == fn && !fi.addrEscapes(al) {
+					// a private local object: only its own cell changes
+					mi.writes = append(mi.writes, memWrite{in, map[memKey]bool{cellKey(al): true}})
+					continue
+				}
+			}
 			instrWrites(fi.P, in, keys, map[*ssa.Function]bool{fn: true})
 			if len(keys) > 0 {
 				mi.writes = append(mi.writes, memWrite{in, keys})
